@@ -4,7 +4,7 @@ List-level facts for the resource invariant (C09): `setAt`, association lists, a
 key objects referenced from the entries of the caches that are still open (`liveObjs`).
 -/
 set_option linter.unusedVariables false
-namespace AsherahVerif.Env
+namespace AsherahVerif.Env.Res
 
 theorem setAt_cons_zero {α : Type} (a : α) (l : List α) (f : α → α) : setAt (a :: l) 0 f = f a :: l := by
   apply List.ext_getElem?
@@ -378,4 +378,4 @@ theorem entCount_kill {dead : Nat → Bool} {cs : List KeyCache} {c : Nat} {kc :
   unfold entCount liveObjs
   exact liveObjsFrom_kill dead o c cs 0 c kc h (by simp) hd
 
-end AsherahVerif.Env
+end AsherahVerif.Env.Res
